@@ -56,9 +56,18 @@ def check_case(rep, drv, case, modes, rng, other=b'\x02\x01\x07'):
 def check_stream(rep, cases_enc, codec_name, seekable, rng):
     """several encodings back to back: one object per encoding, position after each = its end"""
     data = b''.join(e for _, e in cases_enc)
-    for kind in ('bytesio', 'growing'):
+    polls = sorted(set(rng.randrange(0, 4 * len(cases_enc) + 8) for _ in range(rng.randrange(1, 6))))
+    for kind in ('bytesio', 'growing', 'blocks-1', 'blocks-2', 'blocks-3', 'blocks-5', 'polling'):
         if kind == 'bytesio':
             s = io.BytesIO(data)
+        elif kind == 'polling':
+            # complete data, but some read() calls answer None first (a non-blocking stream)
+            s = streams.PollingBytesIO(data, polls)
+        elif kind.startswith('blocks-'):
+            # a seekable raw stream that hands out at most k octets per read() (short reads)
+            s = streams.GrowingStream(seekable=True, max_read=int(kind[7:]))
+            s.feed(data)
+            s.close_input()
         else:
             s = streams.GrowingStream(seekable=seekable)
             s.feed(data)
@@ -70,15 +79,19 @@ def check_stream(rep, cases_enc, codec_name, seekable, rng):
             pos += len(e)
             ends.append(pos)
         got = []
-        replay = {'kind': 'stream', 'codec': codec_name, 'stream': kind, 'seekable': seekable,
+        replay = {'kind': 'stream', 'codec': codec_name, 'stream': kind, 'seekable': seekable, 'polls': polls,
                   'items': [[gen.ty_sexp(c.t), gen.val_sexp(c.v), e.hex()] for c, e in cases_enc]}
         try:
             # heterogeneous types: decode item by item with the matching guiding type
             from pyasn1.codec.streaming import asSeekableStream
-            sub = asSeekableStream(s) if kind == 'growing' else s
+            sub = asSeekableStream(s) if kind != 'bytesio' else s
             for i, (c, e) in enumerate(cases_enc):
                 it = iter(dec.StreamingDecoder(sub, asn1Spec=c.schema))
                 obj = next(it)
+                budget = len(polls) + 2
+                while kind == 'polling' and isinstance(obj, error.SubstrateUnderrunError) and budget:
+                    obj = next(it)          # the stream answered None: ask again
+                    budget -= 1
                 if isinstance(obj, error.SubstrateUnderrunError) or obj is None:
                     rep.fail('stream-underrun-on-complete-data', 'underrun although item %d is complete' % i, replay)
                     return
